@@ -2,6 +2,7 @@ import ArgoVerif.Proofs.TQ
 import ArgoVerif.Gen.PoolEnds
 import ArgoVerif.Gen.Consts
 import ArgoVerif.Proofs.PoolConcH
+import ArgoVerif.Proofs.PoolConcM
 /-
 Props.C07 — built-in pools are queues: the sequential / data-structure half first, the concurrent half
 (`Model.PoolConc`: lock discipline, lock-free emptiness pre-checks, linearisation points) at the end of the file.
@@ -442,7 +443,7 @@ example : ∃ s, (machine ⟨.spin, true⟩).run init (demoTrace.take 5) = some 
 /-- FIFO_WAIT: push_many of two units under the mutex, a pop_wait that finds the pool empty, waits and is woken,
 a pop_many(3) that comes back with the two units and an observed-empty third attempt -/
 example : ((machine ⟨.mutex, true⟩).run init
-    [.call 2 (.popWait false), .mlock 2, .loadEmpty 2 true, .condWait 2, .call 1 (.pushMany [7, 8] false), .mlock 1,
+    [.call 2 (.popWait false), .mlock 2, .loadEmpty 2 true, .condWait 2, .call 1 (.pushMany [7, 8] false), .cbPushMany 1 2, .mlock 1,
      .link 1 7 false, .storeEmpty 1 false, .storeIn 1 7 true, .link 1 8 false, .storeIn 1 8 true, .signal 1, .wake 2,
      .munlock 1, .ret 1 .unit, .mlock 2, .take 2 7 true, .storeIn 2 7 false, .munlock 2, .ret 2 (.popped [7]),
      .call 2 (.popMany 3 false), .loadEmpty 2 false, .mlock 2, .take 2 8 true, .storeEmpty 2 true, .storeIn 2 8 false,
@@ -471,6 +472,79 @@ example : ((machine ⟨.spin, false⟩).run init
     [.call 1 (.push 5 true), .link 1 5 true, .storeEmpty 1 false, .storeIn 1 5 true, .ret 1 .unit,
      .call 1 (.pop true), .take 1 5 false, .storeEmpty 1 true, .storeIn 1 5 false, .ret 1 (.popped [5])]).map
       (fun s => (s.q, s.linOps)) = some ([], [.pushHead 5, .popTail]) := by decide
+
+/-! ### one API-level push_many / pop_many is one atomic multi-unit operation -/
+
+/-- **`ABT_pool_push_threads(_ex)` hands the whole batch to the pool in one callback invocation.**  The only step that
+leaves the wrapper (`pmCb`, reached by every push_many call with a non-empty batch) is hook 23 with the count of *all*
+units of the call; afterwards the call is inside the callback and never comes back to the wrapper, so the callback is
+invoked exactly once per API call, with the full batch. -/
+theorem pool_push_many_single_callback {cfg : Cfg} {s s' : St} {a : Actor} {n : Nat} (hr : (machine cfg).Reachable s)
+    (hs : step cfg s (.cbPushMany a n) = some s') :
+    s.pc a = .pmCb ∧ n = (unitsOf (s.cur a)).length ∧ isPushLike (s.cur a) = true ∧ s'.pc a ≠ .pmCb ∧
+    s'.todo a = unitsOf (s.cur a) := by
+  have hi := inv_reachable hr
+  have h2 := inv2_reachable hr
+  simp only [step, stepCbPushMany] at hs
+  split at hs
+  · simp at hs
+  next hg =>
+  simp only [Option.some.injEq] at hs; subst hs
+  have hpc : s.pc a = .pmCb := by simp_all
+  have hn : n = (s.todo a).length := by simp_all
+  obtain ⟨hnp, hnr⟩ := (hi.typed a).1 (by simp [hpc, PushPc])
+  have hp := pushlike_of_not hnp hnr
+  obtain ⟨_, ht⟩ := h2.pre a hp (by simp [hpc, PrePush])
+  refine ⟨hpc, by rw [hn, ht], hp, ?_, by simpa [setPc] using ht⟩
+  simpa [setPc, upd] using bodyPc_ne_pmCb cfg (s.cur a)
+
+/-- **one push_many is one atomic multi-push, whatever its length.**  When a push / push_many call has pushed its last
+unit and is about to signal / release the lock (or, lock-free callbacks, to return), *every* unit of the call has been
+pushed in this one critical section (`done = us`, nothing left to do) … -/
+theorem pool_push_many_complete {cfg : Cfg} {s : St} {a : Actor} (hr : (machine cfg).Reachable s)
+    (hp : isPushLike (s.cur a) = true) (hpc : s.pc a = .sig ∨ s.pc a = .rel ∨ s.pc a = .retp) :
+    s.done a = unitsOf (s.cur a) ∧ s.todo a = [] := by
+  have h2 := inv2_reachable hr
+  have ht := h2.fin a hp hpc
+  have hb := h2.batch a hp (by rcases hpc with e | e | e <;> simp [e])
+  have : pending s a = [] := by rcases hpc with e | e | e <;> simp [pending, e]
+  rw [this, ht] at hb
+  exact ⟨by simpa using hb.symm, ht⟩
+
+/-- … and while the call is inside that critical section the pool's content is exactly what the call found when it took the
+lock plus, contiguously and in array order at the end its context selects (head pushes: reversed, in front), the units
+it has pushed so far.  With `pool_mutual_exclusion` nobody else touches the ring in between: no other operation can
+observe a strict prefix of the batch, and no other producer's unit can land inside it. -/
+theorem pool_push_many_contiguous {cfg : Cfg} {s : St} {a : Actor} (hr : (machine cfg).Reachable s)
+    (hcs : InCS (s.pc a)) (hp : isPushLike (s.cur a) = true) :
+    s.q = if headOf (s.cur a) then (s.done a).reverse ++ s.base a else s.base a ++ s.done a :=
+  (inv2_reachable hr).contig a hcs hp
+
+/-- **one pop_many is one atomic multi-pop.**  While a pop-like call is inside its critical section, what it found when it
+took the lock is what it has taken so far followed by what is left (tail pops: what is left followed by the taken units,
+last first): it takes a contiguous run from one end, in queue order, within one lock hold. -/
+theorem pool_pop_many_contiguous {cfg : Cfg} {s : St} {a : Actor} (hr : (machine cfg).Reachable s)
+    (hcs : InCS (s.pc a)) (hp : isPopLike (s.cur a) = true) :
+    s.base a = if tailOf (s.cur a) then s.q ++ (s.got a).reverse else s.got a ++ s.q :=
+  (inv2_reachable hr).taken a hcs hp
+
+/-- non-vacuity: a three-unit push_many on a pool holding unit 9, just before the release: everything pushed, contiguous -/
+example : ((machine ⟨.spin, true⟩).run init
+    [.call 1 (.push 9 false), .tas 1 false, .link 1 9 false, .storeEmpty 1 false, .storeIn 1 9 true, .clear 1, .ret 1 .unit,
+     .call 2 (.pushMany [4, 5, 6] false), .cbPushMany 2 3, .tas 2 false, .link 2 4 false, .storeIn 2 4 true,
+     .link 2 5 false, .storeIn 2 5 true, .link 2 6 false, .storeIn 2 6 true]).map
+      (fun s => (s.pc 2 == .rel, s.q, s.base 2, s.done 2, s.todo 2)) = some (true, [9, 4, 5, 6], [9], [4, 5, 6], []) := by decide
+
+/-- **rejected**: the wrapper handing over only a part of the batch (hook 23 with 2 of 3 units) is not a run … -/
+example : (machine ⟨.spin, true⟩).run init [.call 2 (.pushMany [4, 5, 6] false), .cbPushMany 2 2] = none := rfl
+
+/-- … nor a second callback invocation / a second lock acquisition inside one push_many call -/
+example : (machine ⟨.spin, true⟩).run init
+    [.call 2 (.pushMany [4, 5] false), .cbPushMany 2 2, .tas 2 false, .link 2 4 false, .storeEmpty 2 false, .storeIn 2 4 true,
+     .link 2 5 false, .storeIn 2 5 true, .clear 2, .cbPushMany 2 1] = none ∧
+    (machine ⟨.spin, true⟩).run init
+    [.call 2 (.pushMany [4, 5] false), .cbPushMany 2 2, .tas 2 false, .link 2 4 false, .storeEmpty 2 false, .storeIn 2 4 true,
+     .clear 2] = none := ⟨rfl, rfl⟩
 
 /-! ### the lock discipline of the generated table -/
 
